@@ -38,7 +38,9 @@ EXC_CLASSES = {
 
 
 class StepCap(BaseException):
-    """Step cap exceeded: a harness error, kept out of `except Exception`."""
+    """Step cap exceeded (the run takes far more steps than its parts took
+    alone, or a lexer never ends); kept out of `except Exception`.  The op in
+    progress gets the outcome 'hang' and every actor is unwound in turn."""
 
 
 class LexCallbackError(Exception):
@@ -65,6 +67,8 @@ class Scheduler:
         self.total_steps = 0
         self.switches = 0
         self.max_steps = INF
+        self.hung = False
+        self.deadline_s = 300.0
         self.main_sem = threading.Semaphore(0)
         self.switch_hook = None
         k = self.policy.get("kind")
@@ -160,11 +164,14 @@ class Scheduler:
                 self.switch_hook(a, self.cur)
             self.cur.sem.release()
             a.sem.acquire()
+        if self.hung:
+            raise StepCap("step cap exceeded (unwinding)")
         self.budget -= 1
         self.total_steps += 1
         a.steps += 1
         self.segments[-1][1] += 1
         if self.total_steps > self.max_steps:
+            self.hung = True
             raise StepCap("step cap exceeded")
 
     def finished(self, a):
@@ -181,7 +188,11 @@ class Scheduler:
         if self.cur is None:
             return
         self.cur.sem.release()
-        self.main_sem.acquire()
+        if not self.main_sem.acquire(timeout=self.deadline_s):
+            # every actor is parked or one is spinning: the machinery cannot
+            # continue with these threads
+            _POOL.clear()
+            raise HarnessError("run did not finish within %.0f s (scheduler deadlock or endless loop)" % self.deadline_s)
 
 
 # --------------------------------------------------------------------------
@@ -232,7 +243,12 @@ def make_sim_lexer(world, actor):
         _sim_actor = actor
 
         def token(self):
-            a = actor
+            a = world.by_thread.get(threading.get_ident(), actor)
+            if a is not actor:
+                # this lexer instance belongs to another actor's parser: a
+                # cross-instance leak in itself (witness), and the scheduler
+                # must be told who is really running
+                world.foreign_lexer_calls += 1
             a.tok_calls += 1
             f = a.fault
             if f is not None and not a.fault_fired and f["kind"] == "seam-abort":
@@ -269,8 +285,11 @@ class World:
             est_steps=spec.get("est_steps"),
         )
         self.sched.max_steps = int(spec.get("max_steps", 50_000_000))
+        self.sched.deadline_s = float(spec.get("deadline_s", 300.0))
         self.sched.switch_hook = self.on_switch if spec.get("probes", True) else None
         self.code_cache = {}
+        self.by_thread = {}
+        self.foreign_lexer_calls = 0
         self.probes = {}
         self.switch_sites = {}
         self.fired = {}
@@ -609,6 +628,11 @@ class OpRunner:
                 raise
             res["out"] = {"k": "abort", "d": type(e).__name__}
             res["abort_probe"] = a.abort_probe
+        except StepCap:
+            res["out"] = {"k": "hang", "d": "hang"}
+            res["hang"] = True
+            sys.settrace(None)
+            a.tracing = False
         res["ntok"] = a.ntok
         res["tokhash"] = "%016x" % a.tokhash
         res["toklog"] = a.toklog if a.ntok <= TOKLOG_LIMIT else None
@@ -1065,11 +1089,19 @@ def get_visitor_class(pyc, name):
 # --------------------------------------------------------------------------
 def _actor_main(world, actor):
     actor.thread_ident = threading.get_ident()
+    world.by_thread[actor.thread_ident] = actor
     actor.sem.acquire()
     try:
         runner = OpRunner(world, actor)
         for op in actor.ops:
-            actor.results.append(runner.run(op))
+            try:
+                r = runner.run(op)
+            except StepCap:
+                # cap hit at the op-boundary yield point itself
+                r = {"op": op["op"], "out": {"k": "hang", "d": "hang"}, "hang": True}
+            actor.results.append(r)
+            if r.get("hang"):
+                break
     except BaseException as e:  # harness problem; reported by execute()
         import traceback
 
@@ -1145,6 +1177,8 @@ def execute(pyc, spec, keep_full=True):
             cross += len(ai.node_ids & aj.node_ids)
     out = {
         "cross_shared": cross,
+        "hung": world.sched.hung,
+        "foreign_lexer_calls": world.foreign_lexer_calls,
         "preempted_inside": [a.preempted_inside for a in world.actors],
         "actors": [a.results for a in world.actors],
         "schedule": world.sched.segments,
